@@ -1,19 +1,22 @@
 #!/bin/bash
 # tools/try_seed.sh <dir with patch.diff [demo.py]> <Cnn> [quick|thorough] [--full]
-# Applies the patch to /repo, (with --full: runs the baseline and the demo), runs the
-# check, and always reverts /repo afterwards.
+# Applies the patch to a scratch clone of /repo's HEAD (outside /repo and /verif, removed afterwards),
+# (with --full: runs the 262 baseline tests and the demo there), runs the check against the clone.
+# Evidence / replays of such runs go to the scratch directory, never to /verif/evidence.
 d=$1; pid=$2; tier=${3:-quick}; full=$4
-cd /repo || exit 2
-if [ -n "$(git status --porcelain -- pvl)" ]; then echo "/repo not clean"; exit 2; fi
+V=$(cd "$(dirname "$0")/.." && pwd)
+S=$(mktemp -d /tmp/tryseed.XXXXXX); trap 'rm -rf $S' EXIT
+git clone -q /repo $S/repo || exit 2
+cd $S/repo
 if [ "$full" = "--full" ] && [ -f "$d/demo.py" ]; then
-  PYTHONPATH=/repo /venv/bin/python "$d/demo.py" >/dev/null 2>&1; echo "demo on clean tree: exit $?"
+  PYTHONPATH=$S/repo /venv/bin/python "$d/demo.py" >/dev/null 2>&1; echo "demo on clean tree: exit $?"
 fi
-git apply --3way "$d/patch.diff" 2>/dev/null || git apply "$d/patch.diff" || { echo "patch does not apply"; git checkout -- .; exit 2; }
+git apply --3way "$d/patch.diff" 2>/dev/null || git apply "$d/patch.diff" || { echo "patch does not apply"; exit 2; }
 git reset -q
 if [ "$full" = "--full" ]; then
-  python3 /verif/tools/baseline_check.py /repo | head -3
-  if [ -f "$d/demo.py" ]; then PYTHONPATH=/repo /venv/bin/python "$d/demo.py" >/dev/null 2>&1; echo "demo with patch: exit $?"; fi
+  python3 $V/tools/baseline_check.py $S/repo | head -1
+  if [ -f "$d/demo.py" ]; then PYTHONPATH=$S/repo /venv/bin/python "$d/demo.py" >/dev/null 2>&1; echo "demo with patch: exit $?"; fi
 fi
-cd /verif && VERIF_OUT=/tmp/try_seed_out ./vcheck $pid $tier 2>&1 | grep -E "VIOLATION|diagnosis|^C[0-9]+ |KNOWN|WARNING|Error|Traceback" | head -12
-echo "check exit: ${PIPESTATUS[0]}"
-cd /repo && git checkout -- . && git status --porcelain -- pvl | head
+cd $V && VERIF_REPO=$S/repo VERIF_OUT=$S/out ./vcheck $pid $tier > $S/log 2>&1; rc=$?
+grep -E "VIOLATION|diagnosis|^C[0-9]+ |KNOWN|WARNING|Error|Traceback" $S/log | head -${TRY_LINES:-8}
+echo "check exit: $rc"
